@@ -111,6 +111,9 @@ func runC05(r *Run) {
 	kc := pfrac{1 + t.Intn(4, "k-added"), 32}
 	addAfter := time.Duration(t.Intn(6, "add-after")) * time.Nanosecond
 	added := false
+	// the configuration is reloaded: partition b is removed right before c is added (c may take over b's slot)
+	removeFirst := addLater && t.Chance(40, "remove-b-before-adding-c")
+	removedB := false
 	switch kind {
 	case "simple":
 		simple = strategy.NewSimpleStrategyWithMetricRegistry(stratInit, reg)
@@ -214,8 +217,11 @@ func runC05(r *Run) {
 			return false
 		}
 		chk, chkK := names, ks
+		if removedB {
+			chk, chkK = names[:1], ks[:1] // (registration order: a, then c in the predicate strategy)
+		}
 		if added {
-			chk, chkK = append(append([]string{}, names...), "c"), append(append([]pfrac{}, ks...), kc)
+			chk, chkK = append(append([]string{}, chk...), "c"), append(append([]pfrac{}, chkK...), kc)
 		}
 		for i, n := range chk {
 			if lookup == nil && pred == nil {
@@ -251,6 +257,9 @@ func runC05(r *Run) {
 			}
 		}
 		for i, n := range names {
+			if removedB && n == "b" {
+				continue
+			}
 			if g := reg.Gauge(core.MetricPartitionLimit, "partition:"+n); g != nil {
 				var v float64
 				var ok2 bool
@@ -363,6 +372,17 @@ func runC05(r *Run) {
 	if addLater {
 		tasks = append(tasks, s.Go("partition-adder", func(tk *Task) {
 			tk.Sleep(addAfter)
+			if removeFirst {
+				tk.Begin("RemovePartition", "b")
+				if lookup != nil {
+					lookup.RemovePartition("b")
+				} else {
+					pred.RemovePartitionsMatching(context.WithValue(bg, matchers.StringPredicateContextKey, "b"))
+				}
+				removedB = true
+				tk.End(nil)
+				r.Fault("F-part:remove")
+			}
 			tk.Begin("AddPartition", "c")
 			if lookup != nil {
 				lookup.AddPartition("c", strategy.NewLookupPartitionWithMetricRegistry("c", kc.float(), 1, reg))
